@@ -428,9 +428,10 @@ def run_impl(lines):
         beat("correspondence: implementation side", {"script_up_to_the_command_that_does_not_return": lines[:i + 1]})
         try:
             out.append(im.step(l))
-        except (KeyboardInterrupt, SystemExit):
+        except SystemExit:
             raise
-        except BaseException as e:        # noqa
+        except BaseException as e:        # noqa  (KeyboardInterrupt included: the streams inject it through the objective, and an
+            # implementation that lets it escape from Solve must show as a mismatch, not end the check)
             out.append(f"impl-error:{type(e).__name__}" + _raised_in_library(e))
     return out, im
 
